@@ -75,7 +75,8 @@ class Gen:
         s = self.s
         a, b, c = [self.q(rr(rng)) for _ in range(3)]
         pool = [a * s + b / s, a / (s + b) ** 2, a * s ** 2 + b, (s ** 2 + a) / (s * (s ** 2 + a + b)), a / s ** 2,
-                (s + a) ** 2 / ((s + b) * (s + b + c)), a * s + b + c / s, a + b / (s + c), s * a / (s ** 2 + b), self.q(Fraction(0)) * s]
+                (s + a) ** 2 / ((s + b) * (s + b + c)), a * s + b + c / s, a + b / (s + c), s * a / (s ** 2 + b), self.q(Fraction(0)) * s,
+                a * s / (s ** 2 + b) ** 2, (s ** 2 + a) ** 2 / (s * (s ** 2 + a + b) ** 2)]
         return self.S.cancel(rng.choice(pool)), {'family': 'poles at 0 / infinity, repeated poles, zero'}
 
     def parts(self, rng, symbolic=False):
@@ -198,6 +199,8 @@ def run(chk, replay=None):
             model = None
             if form == 'cauerI' and not symvals:
                 model = [ask('syn.cauerI | %s | %s | %s' % (' '.join(Nt), ' '.join(Dt), fstr(x))) for (x, _) in pts]
+            elif form == 'cauerII' and not symvals:
+                model = [ask('syn.cauerII | %s | %s | %s' % (' '.join(Nt), ' '.join(Dt), fstr(x))) for (x, _) in pts]
             elif raw is not None and form in PATTERNS and (form.startswith('series') == (rawkind == 'Z')):
                 model = [ask('syn.pattern %s | %s %s %s %d | %s' % (form, raw['c0'], raw['cp'], raw['cm'], raw['other'], fstr(x))) for (x, _) in pts]
             if err:
@@ -235,8 +238,8 @@ def run(chk, replay=None):
                     chk.coverage['correspondence']['compared'] += 1
                     m = model[i].split()
                     if m[0] != 'ok':
-                        if form == 'cauerI' and m[0] == 'negpower':
-                            chk.count('model', 'cauerI:negpower (outside the model)')
+                        if form in ('cauerI', 'cauerII') and m[0] == 'negpower':
+                            chk.count('model', '%s:negpower (outside the model)' % form)
                         else:
                             chk.coverage['correspondence']['disagreements'] += 1
                             disagreements.append({'what': form, 'input': inp, 'lcapy': str(net), 'model': model[i]})
